@@ -194,7 +194,71 @@ pub fn verify_hostile(ctx: &Ctx, rep: &mut Report) {
     rep.require("verify_true", 1);
 }
 
+/// Write structured seeds for the libFuzzer target (first byte = selector of the target).
+pub fn dump_corpus(ctx: &Ctx, rep: &mut Report) {
+    let dir = match ctx.args.first() {
+        Some(d) => d.clone(),
+        None => {
+            rep.inconclusive("no directory given".into());
+            return;
+        }
+    };
+    let _ = std::fs::create_dir_all(&dir);
+    let mut rng = rng_for(ctx.seed, "c03-corpus");
+    let mut n = 0;
+    let mut put = |sel: u8, body: &[u8], n: &mut usize| {
+        let mut v = vec![sel];
+        v.extend_from_slice(body);
+        let _ = std::fs::write(format!("{}/seed-{:04}", dir, *n), v);
+        *n += 1;
+    };
+    let cases = cursor_sweep(512, 625, &mut rng, false);
+    for (i, c) in cases.iter().enumerate() {
+        if i % 40 == 0 {
+            // selector 5: Falcon-512 signature body (after the header: 40 salt bytes + body)
+            let mut b = rand_bytes(&mut rng, 40);
+            b.extend_from_slice(&c.x);
+            put(5, &b, &mut n);
+        }
+    }
+    let cases = cursor_sweep(1024, 1239, &mut rng, false);
+    for (i, c) in cases.iter().enumerate() {
+        if i % 120 == 0 {
+            let mut b = rand_bytes(&mut rng, 40);
+            b.extend_from_slice(&c.x);
+            put(8, &b, &mut n);
+        }
+    }
+    for _ in 0..4 {
+        put(2, &synth_pk::<F512>(&mut rng)[1..], &mut n);
+        put(3, &synth_pk::<F1024>(&mut rng)[1..], &mut n);
+        put(4, &synth_sk::<F512>(&mut rng, 2)[1..], &mut n);
+        put(0, &synth_sig::<F512>(&mut rng), &mut n);
+        put(1, &synth_sk::<F1024>(&mut rng, 0), &mut n);
+    }
+    rep.evaluations += n as u64;
+    rep.count("corpus_files", n as u64);
+}
+
 pub fn replay(r: &Value) -> bool {
+    if r["kind"] == "fuzz-input" {
+        // a libFuzzer crash input: feed it to the decoders the way the target does
+        let data = unhex(r["bytes"].as_str().unwrap_or(""));
+        let out = monitored(|| {
+            if data.is_empty() {
+                return;
+            }
+            let rest = &data[1..];
+            let _ = F512::pk_from_bytes(rest);
+            let _ = F1024::pk_from_bytes(rest);
+            let _ = F512::sig_from_bytes(rest);
+            let _ = F1024::sig_from_bytes(rest);
+            let _ = F512::sk_from_bytes(rest);
+            let _ = F1024::sk_from_bytes(rest);
+        });
+        println!("raw decoders on the crash input: {:?} (run `cargo +nightly fuzz run decode_verify <file>` in /verif/fuzz for the exact path)", out.as_ref().map_err(|p| p.message.clone()));
+        return out.is_ok();
+    }
     fn go<V: Fv>(r: &Value) -> bool {
         match r["kind"].as_str().unwrap_or("") {
             "decode" => {
